@@ -225,6 +225,9 @@ def bytesOf {α} (ops : List (Op α)) : List α := ops.flatMap Op.bytes
 /-- `LogStreamBuffer::end()`. -/
 def Stream.end_ {α} (s : Stream α) : Stream α := { s with buf := s.buf.sync }
 
+/-- `begin()` on an allocator at position `a0`, the operations `ops`, `end()`. -/
+def Stream.finish {α} (ps a0 : Nat) (ops : List (Op α)) : Stream α := ((Stream.begin ps a0).run ops).end_
+
 /-- The finished `LogEntry` plus the table pages it points to. -/
 structure Entry where
   size : Nat
